@@ -109,6 +109,18 @@ PROPS = {
         text="Time expressions are evaluated exactly by the harness and compared with the reader to < 1 ns; structure (lines, runs, references by identity with the map entries, inheritance links of every child) against ground truth; writer fidelity by two decoders.",
         note="Trusted: renderer, rational evaluator and token-walk decoder in the harness; encoding/xml as XML parser; rapid.",
         design="5/C03", exhaustive_note=True),
+    "C04": P(
+        "TestC04", "exploration",
+        "read: case = (ground-truth SSA model, rendering); model = subset of the 15 script-info fields (values with ':' and ','), ';' comments, 0..4 styles over a drawn subset of the 23 attribute columns (booleans, 32-bit colours incl. alpha >= 0x80, 1/1000-grid floats, ints), 0..6 Dialogue events (cs-grid times, layer/marked, margins, effect, speaker, style reference, 1..3 lines of 1..3 runs with optional {...} override blocks, commas in text); "
+        "rendering = permutation of the style columns (Name anywhere), permutation/subset of the event columns with Text last, section-name case / 'V4 Styles+', v4 vs v4+ layout, H:MM:SS.cc vs HH:MM:SS.cc, colours decimal / negative decimal / &H hex (6-8 digits, both cases), TertiaryColour vs OutlineColour, \\N vs \\n, EOL kinds, BOM, junk lines, unknown sections, comments inside sections, non-Dialogue events, '*'-prefixed style references, 'Key: v' vs 'Key:v'. "
+        "write: model with heterogeneous style attribute sets, v4 and v4+; checks library re-read, independent decoder and W(R(W(m))) == W(m). Non-trivial = >=1 event and >=1 feature label; distinct = hash of rendered bytes / model.",
+        ["run text contains no braces and no \\N / \\n sequences; no white space at line edges; every override block is followed by text; Name/Effect/Style cells contain no comma; Style rows carry no blanks after commas (as the specification writes them)",
+         "N4: booleans compare by effective value (absent = false); N5: floats on the 1/1000 grid",
+         "the independent Format-driven decoder treats an empty cell as 'absent' and any non-zero boolean as true"],
+        shards=(4, 16), technique="model-based property testing: ground-truth model x rendering -> reader; writer output decoded by the library reader and an independent Format-driven decoder; write/read/write byte idempotence",
+        text="Every style attribute is taken from the column its Format line assigns under generated column permutations; the writer is checked by two decoders and by the byte-level idempotence law.",
+        note="Trusted: renderer and independent decoder in the harness, rapid.",
+        design="5/C04"),
 }
 
 # Properties deliberately not claimed (reason each); anything else missing from PROPS is work in progress.
